@@ -54,17 +54,35 @@ def snapshot(rt):
     return [rt.recordsz, rt.pointer, 2, list(v.shape[1:]), [flat(v[i]) for i in range(v.shape[0])]]
 
 
-def build(case):
+def make(n, dt, shape=None, persist=False):
+    """a record of n slots with step time dt; persist=True: zero-initialised storage, data and temporal
+    configuration (dt, duration, inclusive) travel with the state dictionary / the extra state"""
     owner = Module()
     KEEP.append(owner)
-    n, dt = case["N"], case["dt"]
     # duration chosen in the middle of a step so that ceil(duration / dt) + 1 == N whatever the rounding
     duration = dt * (n - 1.5) if n >= 2 else 0.0
-    RecordTensor.create(owner, "rec", dt, duration, None, inclusive=True)
+    if persist:
+        RecordTensor.create(owner, "rec", dt, duration, torch.zeros(shape, dtype=torch.float64), inclusive=True,
+                            persist_data=True, persist_temporal=True)
+    else:
+        RecordTensor.create(owner, "rec", dt, duration, None, inclusive=True)
     rt = owner.rec
     assert rt.recordsz == n, (rt.recordsz, n)
     assert rt.dt == dt
-    return rt
+    return owner
+
+
+def build(case):
+    return make(case["N"], case["dt"]).rec
+
+
+def restore(dst, src, via):
+    """change the temporal configuration of dst's record to that of src's without going through the
+    record's setters: checkpoint restore (data, pointer, dt, duration) or the extra state alone"""
+    if via == "lsd":
+        dst.load_state_dict(src.state_dict())
+    else:
+        dst.set_extra_state(dict(src.get_extra_state()))
 
 
 def apply(rt, op, shape, odt=torch.float64):
@@ -120,18 +138,33 @@ def apply(rt, op, shape, odt=torch.float64):
     raise AssertionError(k)
 
 
+def step(rt, op, case):
+    aux = None
+    try:
+        o, aux = apply(rt, op, case["shape"], SDT[case.get("dtype", "f64")])
+        out = [0, o]
+    except Exception as e:  # noqa
+        c = exc_code(e)
+        out = [1, c] if c != 9 else [1, 9, f"{type(e).__name__}: {e}"[:200]]
+    return [out, snapshot(rt), aux]
+
+
 def run_case(case):
-    rt = build(case)
+    r = case.get("restore")
+    if r is None:
+        rt = build(case)
+        return [step(rt, op, case) for op in case["ops"]]
+    # the record under test is built with ANOTHER step time (same number of slots) and receives the
+    # case's step time from a second record; operations before the restore run on that second record
+    n, shape = case["N"], case["shape"]
+    src = make(n, case["dt"], shape, persist=True)
+    dst = make(n, r["dt0"], shape, persist=True)
     tr = []
-    for op in case["ops"]:
-        aux = None
-        try:
-            o, aux = apply(rt, op, case["shape"], SDT[case.get("dtype", "f64")])
-            out = [0, o]
-        except Exception as e:  # noqa
-            c = exc_code(e)
-            out = [1, c] if c != 9 else [1, 9, f"{type(e).__name__}: {e}"[:200]]
-        tr.append([out, snapshot(rt), aux])
+    for i, op in enumerate(case["ops"]):
+        if i == r["at"]:
+            restore(dst, src, r["via"])
+        rt = (dst if i >= r["at"] else src).rec
+        tr.append(step(rt, op, case) + [fhex(rt.dt), rt.recordsz])
     return tr
 
 
